@@ -10,6 +10,7 @@ import (
 	"bytes"
 	"context"
 	"encoding/binary"
+	"encoding/json"
 	"fmt"
 	"testing"
 
@@ -236,6 +237,40 @@ func (c *vC12) checkTuples(t *testing.T, n int, blocks []*vBlock) {
 				for _, m := range vBBMuts(mp.Aunts, [][]byte{mp.LeafHash}) {
 					v := m.V
 					ent("aunts-"+m.Name, func(x *coremerkle.Proof) { x.Aunts = v })
+				}
+				// degenerate proofs: total / index at zero, negative and wrap-around values, the aunts
+				// trimmed to every matching (possibly zero) length, the leaf hash kept / dropped; against
+				// the range's root, the root of the empty tree (the "root recomputed over the emptied
+				// parts"), the one-leaf root of this very tuple and two unrelated roots; also through JSON
+				emptyRoot := coremerkle.HashFromByteSlices(nil)
+				dRoots := append([][]byte{want, emptyRoot, refRoot(height, height+1)}, vUnrelatedRoots...)
+				const maxI = int64(^uint64(0) >> 1)
+				for _, tot := range []int64{0, 1, -1, maxI, -maxI - 1, 1 << 32, int64(len(mp.Aunts))} {
+					for _, idx := range []int64{0, -1, tot - 1, tot, maxI, mp.Index} {
+						for _, keep := range []int{0, len(mp.Aunts) - 1, len(mp.Aunts)} {
+							if keep < 0 {
+								continue
+							}
+							for _, lh := range [][]byte{mp.LeafHash, nil, {}} {
+								dp := &coremerkle.Proof{Total: tot, Index: idx, LeafHash: vCloneB(lh), Aunts: vCloneBB(mp.Aunts[:keep])}
+								if keep == 0 {
+									dp.Aunts = nil
+								}
+								c.st.hist("degenerate_cases", "tuple-proof")
+								for _, rt := range dRoots {
+									try("degenerate.fields-and-trimmed-aunts", dp, rt, tuples[height])
+								}
+								// the same proof through its JSON form, against the range's root and the empty root
+								if doc, err := json.Marshal(dp); err == nil {
+									var back coremerkle.Proof
+									if json.Unmarshal(doc, &back) == nil {
+										try("degenerate.fields-and-trimmed-aunts+json", &back, want, tuples[height])
+										try("degenerate.fields-and-trimmed-aunts+json", &back, emptyRoot, tuples[height])
+									}
+								}
+							}
+						}
+					}
 				}
 			}
 		}
